@@ -981,6 +981,20 @@ def c01_flatten(ctx):
         res = st_.targets[0].id if isinstance(st_, ast.Assign) and isinstance(st_.targets[0], ast.Name) else None
         ctx.check(len(ys) == 1 and enclosing_stmt(ys[0]) in l.body and dotted(ys[0].value) == res, l, "sequential path yields each result once, in order")
         ctx.check(dotted(l.iter) in ("iterable",), l, "sequential loop iterates the task iterable itself")
+    # the optional re-batching of the sequential path keeps every task, in order
+    for a in nodes_of_type(so, ast.Assign):
+        if "iterable" in stores_to(a):
+            v = a.value
+            ok = isinstance(v, ast.GeneratorExp) and len(v.generators) == 2 and not v.generators[0].ifs and not v.generators[1].ifs \
+                and dotted(v.generators[1].iter) == dotted(v.generators[0].target) and dotted(v.elt) == dotted(v.generators[1].target)
+            ctx.check(ok, a, "re-batched sequential input is flattened again by plain nested iteration (every task once, in order)",
+                      "the sequential path re-binds the iterable to %s: tasks can be dropped, filtered or re-ordered" % unparse(v))
+            src = v.generators[0].iter if ok else None
+            d = _single_defs(so, dotted(src)) if src is not None and dotted(src) else []
+            if d:
+                txt = unparse(d[0].value, 300)
+                ctx.check("itertools.islice(it, batch_size)" in txt and txt.startswith("iter(lambda") and txt.endswith(", ())"), d[0], "batches are consecutive islice(it, batch_size) tuples until the empty tuple",
+                          "sequential batches are built as %s" % txt)
 
 
 def c01_count(ctx):
